@@ -322,6 +322,76 @@ def scan_interface(prog, reg, cid, props_table):
     return dict(name='scan:interface', checked=max(checked, 1), violations=viol)
 
 
+_MUTABLE_CTORS = {'dict', 'list', 'set', 'defaultdict', 'OrderedDict', 'deque', 'Counter', 'WeakValueDictionary',
+                  'WeakKeyDictionary', 'bytearray'}
+_CACHE_DECOS = {'lru_cache', 'cache', 'cached_property'}
+PINNED_SHARED = {('Tags', '_module_library')}     # the documented process-wide tag library (C19's subject)
+
+
+def _mutable_value(v):
+    if isinstance(v, (ast.Dict, ast.List, ast.Set, ast.DictComp, ast.ListComp, ast.SetComp)):
+        return True
+    if isinstance(v, ast.Call):
+        f = v.func
+        name = f.id if isinstance(f, ast.Name) else (f.attr if isinstance(f, ast.Attribute) else None)
+        return name in _MUTABLE_CTORS
+    return False
+
+
+def scan_shared_state(prog):
+    """Process-wide mutable state: a module-level or class-level name bound to a mutable container (or a memoising
+    decorator) that code inside a function refers to.  The proofs treat the heap of one model as the only thing a
+    call can read or write; state shared by all models of a process is outside that argument.  Such state is not a
+    violation by itself (a cache that copies on the way in and out is harmless), so it is reported as *unproved*:
+    the run is DEGRADED and the native layer (same-process re-runs, interleaved models) stands in."""
+    found, checked = [], 0
+    for m, src in prog.sources.items():
+        tree = ast.parse(src)
+        shared = {}          # name -> (where, lineno)
+        for node in tree.body:
+            tv = []
+            if isinstance(node, ast.Assign):
+                tv = [(t, node.value) for t in node.targets]
+            elif isinstance(node, ast.AnnAssign) and node.value is not None:
+                tv = [(node.target, node.value)]
+            for t, v in tv:
+                if isinstance(t, ast.Name) and _mutable_value(v) and not t.id.startswith('__'):
+                    shared[t.id] = (f'{m}.{t.id}', node.lineno, 'module')
+            if isinstance(node, ast.ClassDef):
+                for sub in node.body:
+                    tv = []
+                    if isinstance(sub, ast.Assign):
+                        tv = [(t, sub.value) for t in sub.targets]
+                    elif isinstance(sub, ast.AnnAssign) and sub.value is not None:
+                        tv = [(sub.target, sub.value)]
+                    for t, v in tv:
+                        if isinstance(t, ast.Name) and _mutable_value(v) and not t.id.startswith('__'):
+                            shared[t.id] = (f'{m}.{node.name}.{t.id}', sub.lineno, 'class')
+        funcs = [n for n in ast.walk(tree) if isinstance(n, (ast.FunctionDef, ast.AsyncFunctionDef, ast.Lambda))]
+        for fn in funcs:
+            checked += 1
+            for d in getattr(fn, 'decorator_list', []):
+                dn = d.func if isinstance(d, ast.Call) else d
+                name = dn.id if isinstance(dn, ast.Name) else (dn.attr if isinstance(dn, ast.Attribute) else None)
+                if name in _CACHE_DECOS:
+                    found.append(f'{m}.{fn.name}: memoising decorator @{name} (line {fn.lineno}): results are shared by '
+                                 f'every caller in the process')
+        used = set()
+        for fn in funcs:
+            for n in ast.walk(fn):
+                if isinstance(n, ast.Name) and n.id in shared and shared[n.id][2] == 'module':
+                    used.add(n.id)
+                if isinstance(n, ast.Attribute) and n.attr in shared and shared[n.attr][2] == 'class':
+                    used.add(n.attr)
+        for name in sorted(used):
+            where, line, kind = shared[name]
+            if (m, name) in PINNED_SHARED:
+                continue
+            found.append(f'{where}: {kind}-level mutable object (line {line}) used inside functions: state shared by every '
+                         f'model in the process')
+    return dict(name='scan:shared-state', checked=checked, violations=[], unproved=found)
+
+
 def _fmt(p):
     return ('*' if p[1] == 'var' else '**' if p[1] == 'kwvar' else '') + p[0] + (f'={p[2]}' if p[2] is not None else '')
 
@@ -337,6 +407,8 @@ def run(spec, prog, reg, cid):
         return scan_defaults(prog, spec['table'], cid)
     if spec['kind'] == 'reads':
         return scan_reads(prog)
+    if spec['kind'] == 'shared-state':
+        return scan_shared_state(prog)
     if spec['kind'] == 'writers':
         return scan_writers(prog, spec['table'])
     raise ValueError(spec)
